@@ -13,13 +13,19 @@ namespace TV.Raster
 section geometry
 variable {α : Type} [Field α] [LinearOrder α] [IsStrictOrderedRing α] [FloorRing α]
 
-/-- the column rule on the normalised abscissa `u = (x - xmin)/rx ∈ [0, A]`, `ncol = ⌈A⌉` -/
-theorem col_spec (ncol : ℤ) (u A : α) (hu0 : 0 ≤ u) (huA : u ≤ A) (hA : 0 < A) (hn : ncol = ⌈A⌉) :
+/-- `max 1 ⌈A⌉` is positive and bounds `A` -/
+theorem max_one_ceil (A : α) : 0 < max 1 ⌈A⌉ ∧ A ≤ ((max 1 ⌈A⌉ : ℤ) : α) :=
+  ⟨lt_of_lt_of_le Int.one_pos (le_max_left _ _),
+   (Int.le_ceil A).trans (by exact_mod_cast le_max_right (1 : ℤ) ⌈A⌉)⟩
+
+/-- the column rule on the normalised abscissa `u = (x - xmin)/rx ∈ [0, A]`, `ncol = max 1 ⌈A⌉`
+    (`A = 0`: the extent has no width, one column) -/
+theorem col_spec (ncol : ℤ) (u A : α) (hu0 : 0 ≤ u) (huA : u ≤ A) (hn : ncol = max 1 ⌈A⌉) :
     ∀ c : ℤ, c = (if u = (ncol : α) then ⌊u⌋ - 1 else ⌊u⌋) →
       0 ≤ c ∧ c < ncol ∧ (c : α) ≤ u ∧ (u < (c : α) + 1 ∨ (c = ncol - 1 ∧ u = (ncol : α))) := by
   intro c hc
-  have hAn : A ≤ (ncol : α) := hn ▸ Int.le_ceil A
-  have hnpos : 0 < ncol := hn ▸ Int.ceil_pos.2 hA
+  have hAn : A ≤ (ncol : α) := hn ▸ (max_one_ceil A).2
+  have hnpos : 0 < ncol := hn ▸ (max_one_ceil A).1
   by_cases h : u = (ncol : α)
   · have hf : ⌊u⌋ = ncol := by rw [h, Int.floor_intCast]
     rw [if_pos h, hf] at hc
@@ -31,17 +37,17 @@ theorem col_spec (ncol : ℤ) (u A : α) (hu0 : 0 ≤ u) (huA : u ≤ A) (hA : 0
     refine ⟨Int.floor_nonneg.2 hu0, Int.floor_lt.2 (lt_of_le_of_ne (huA.trans hAn) h), Int.floor_le u,
       Or.inl (Int.lt_floor_add_one u)⟩
 
-/-- the line rule on the normalised ordinate `v = (y - ymin)/ry ∈ [0, B]`, `nrow = ⌈B⌉`,
+/-- the line rule on the normalised ordinate `v = (y - ymin)/ry ∈ [0, B]`, `nrow = max 1 ⌈B⌉`,
     `idy = (nrow-1) - v` -/
-theorem line_spec (nrow : ℤ) (v B : α) (hv0 : 0 ≤ v) (hvB : v ≤ B) (hB : 0 < B) (hn : nrow = ⌈B⌉) :
+theorem line_spec (nrow : ℤ) (v B : α) (hv0 : 0 ≤ v) (hvB : v ≤ B) (hn : nrow = max 1 ⌈B⌉) :
     ∀ (idy : α) (l : ℤ), idy = ((nrow - 1 : ℤ) : α) - v →
       l = (if ((⌊idy⌋ : α) = idy ∧ ⌊idy⌋ > -1) then ⌊idy⌋
            else if ((⌊idy⌋ : α) = idy ∧ ⌊idy⌋ = -1) then ⌊idy⌋ + 1 else ⌊idy⌋ + 1) →
       0 ≤ l ∧ l < nrow ∧ ((nrow - 1 - l : ℤ) : α) ≤ v ∧
         (v < ((nrow - l : ℤ) : α) ∨ (l = 0 ∧ v = (nrow : α))) := by
   intro idy l hidy hl
-  have hBn : B ≤ (nrow : α) := hn ▸ Int.le_ceil B
-  have hnpos : 0 < nrow := hn ▸ Int.ceil_pos.2 hB
+  have hBn : B ≤ (nrow : α) := hn ▸ (max_one_ceil B).2
+  have hnpos : 0 < nrow := hn ▸ (max_one_ceil B).1
   have hvn : v ≤ (nrow : α) := hvB.trans hBn
   have hv : v = ((nrow - 1 : ℤ) : α) - idy := by rw [hidy]; ring
   have hidy_ge : (-1 : α) ≤ idy := by rw [hidy]; push_cast; linarith
@@ -92,15 +98,19 @@ theorem getCell_inside (g : Grid α) (x y : α) (hx : g.xmin ≤ x ∧ x ≤ g.x
   have h2 : ¬ (y < g.ymin ∨ g.ymax < y) := by push Not; exact ⟨hy.1, hy.2⟩
   simp only [h1, h2, ↓reduceIte, beq_iff_eq, Bool.and_eq_true, decide_eq_true_eq]
 
-/-- a well-formed, non-degenerate grid: positive resolution, positive extent, `ncol`/`nrow` as computed by the
-    constructor -/
+/-- a well-formed grid: positive resolution, an extent that may have zero width or zero height (all the points on
+    one vertical / horizontal line, or a single point), `ncol`/`nrow` as computed by the constructor
+    (at least one column and one row) -/
 structure WF (g : Grid α) : Prop where
   rx : 0 < g.rx
   ry : 0 < g.ry
-  wx : g.xmin < g.xmax
-  wy : g.ymin < g.ymax
-  ncol : g.ncol = ⌈(g.xmax - g.xmin) / g.rx⌉
-  nrow : g.nrow = ⌈(g.ymax - g.ymin) / g.ry⌉
+  wx : g.xmin ≤ g.xmax
+  wy : g.ymin ≤ g.ymax
+  ncol : g.ncol = max 1 ⌈(g.xmax - g.xmin) / g.rx⌉
+  nrow : g.nrow = max 1 ⌈(g.ymax - g.ymin) / g.ry⌉
+
+theorem WF.ncol_pos {g : Grid α} (hg : WF g) : 0 < g.ncol := hg.ncol ▸ (max_one_ceil _).1
+theorem WF.nrow_pos {g : Grid α} (hg : WF g) : 0 < g.nrow := hg.nrow ▸ (max_one_ceil _).1
 
 /-- footprint of the cell (column `c`, line `r` counted from the top): half-open, closed on the outer right /
     top border -/
@@ -117,12 +127,10 @@ theorem getCell_footprint (g : Grid α) (hg : WF g) (x y : α)
   refine ⟨_, _, getCell_inside g x y hx hy, ?_⟩
   have hu0 : 0 ≤ (x - g.xmin) / g.rx := div_nonneg (by linarith [hx.1]) hrx.le
   have huA : (x - g.xmin) / g.rx ≤ (g.xmax - g.xmin) / g.rx := div_le_div_of_nonneg_right (by linarith [hx.2]) hrx.le
-  have hA : 0 < (g.xmax - g.xmin) / g.rx := div_pos (by linarith [hg.wx]) hrx
   have hv0 : 0 ≤ (y - g.ymin) / g.ry := div_nonneg (by linarith [hy.1]) hry.le
   have hvB : (y - g.ymin) / g.ry ≤ (g.ymax - g.ymin) / g.ry := div_le_div_of_nonneg_right (by linarith [hy.2]) hry.le
-  have hB : 0 < (g.ymax - g.ymin) / g.ry := div_pos (by linarith [hg.wy]) hry
-  obtain ⟨c0, c1, c2, c3⟩ := col_spec g.ncol _ _ hu0 huA hA hg.ncol _ rfl
-  obtain ⟨r0, r1, r2, r3⟩ := line_spec g.nrow _ _ hv0 hvB hB hg.nrow _ _ rfl rfl
+  obtain ⟨c0, c1, c2, c3⟩ := col_spec g.ncol _ _ hu0 huA hg.ncol _ rfl
+  obtain ⟨r0, r1, r2, r3⟩ := line_spec g.nrow _ _ hv0 hvB hg.nrow _ _ rfl rfl
   refine ⟨c0, c1, r0, r1, ?_, ?_, ?_, ?_⟩
   · have := (le_div_iff₀ hrx).1 c2; linarith
   · rcases c3 with h | ⟨h, h'⟩
@@ -434,8 +442,8 @@ theorem maxOf_spec (l : List α) (hne : l ≠ []) : ∃ m, maxOf l = some m ∧ 
       · rw [e]; exact h2
       · exact h3 v e
 
-/-- the grid built by the constructor on a box of positive width and height is well formed and covers the box -/
-theorem mkGrid_wf (bx0 bx1 by0 by1 rx ry margin : α) (hx : bx0 < bx1) (hy : by0 < by1)
+/-- the grid built by the constructor on any box (zero width / height allowed) is well formed and covers the box -/
+theorem mkGrid_wf (bx0 bx1 by0 by1 rx ry margin : α) (hx : bx0 ≤ bx1) (hy : by0 ≤ by1)
     (hrx : 0 < rx) (hry : 0 < ry) (hm : 0 ≤ margin) :
     WF (mkGrid Int.ceil bx0 bx1 by0 by1 rx ry margin)
     ∧ (mkGrid Int.ceil bx0 bx1 by0 by1 rx ry margin).xmin ≤ bx0 ∧ bx1 ≤ (mkGrid Int.ceil bx0 bx1 by0 by1 rx ry margin).xmax
